@@ -24,6 +24,17 @@ def _mangle(tree, cname):
     return M().visit(tree)
 
 
+class _LazyImplies(ast.NodeTransformer):
+    """implies(a, b) -> (not a) or b   (python would evaluate b eagerly)"""
+
+    def visit_Call(self, node):
+        self.generic_visit(node)
+        if isinstance(node.func, ast.Name) and node.func.id == "implies" and len(node.args) == 2:
+            return ast.copy_location(ast.BoolOp(op=ast.Or(), values=[
+                ast.UnaryOp(op=ast.Not(), operand=node.args[0]), node.args[1]]), node)
+        return node
+
+
 class _OldLift(ast.NodeTransformer):
     """replace every old(e) by __old[i]; collect the e's"""
 
@@ -58,6 +69,24 @@ def reachable_ids(objs, limit=20000):
     return seen
 
 
+def _register(orig, cp, table, depth=0):
+    """remember which original object each (nested) container of a deep copy stands for"""
+    if isinstance(orig, (int, str, bool, float, type(None))) or depth > 6:
+        return
+    table[id(cp)] = orig
+    if isinstance(orig, (list, tuple)) and isinstance(cp, (list, tuple)) and len(orig) == len(cp):
+        for a, b in zip(orig, cp):
+            _register(a, b, table, depth + 1)
+    elif isinstance(orig, dict) and isinstance(cp, dict):
+        for k in orig:
+            if k in cp:
+                _register(orig[k], cp[k], table, depth + 1)
+    elif hasattr(orig, "__dict__") and hasattr(cp, "__dict__"):
+        for k, a in vars(orig).items():
+            if k in vars(cp):
+                _register(a, vars(cp)[k], table, depth + 1)
+
+
 class Native:
     def __init__(self, uni):
         self.uni = uni
@@ -80,18 +109,24 @@ class Native:
         def forall(f):
             return True      # unbounded quantifier: not evaluable natively (counted as not checked)
 
-        h = dict(same_ref=same_ref, fresh=fresh, distinct=distinct, implies=implies, forall=forall, exists=forall)
+        def seq_key(xs):
+            return tuple(xs)
+
+        h = dict(same_ref=same_ref, fresh=fresh, distinct=distinct, implies=implies, forall=forall, exists=forall,
+                 seq_key=seq_key)
         from collections import Counter
         h["Counter"] = Counter
-        for name, fn in self.uni.spec_natives.items():
-            h[name] = fn
-            fn.__globals__.update({k: v for k, v in h.items() if k not in self.uni.spec_natives})
-        for name, fn in self.uni.spec_natives.items():
-            fn.__globals__.update(self.uni.spec_natives)
+        h.update(getattr(self.uni, "native_globals", {}))
+        # spec functions are recompiled from their AST (lazy implies) into this namespace
+        for name, fnode in self.uni.specs.items():
+            fn2 = _LazyImplies().visit(ast.parse(ast.unparse(fnode)))
+            ast.fix_missing_locations(fn2)
+            exec(compile(fn2, "<spec %s>" % name, "exec"), h)
         return h
 
     def compile(self, src, cname):
         tree = ast.parse(src, mode="eval")
+        tree = _LazyImplies().visit(tree)
         lift = _OldLift()
         tree = lift.visit(tree)
         tree = _mangle(tree, cname)
@@ -104,10 +139,12 @@ class Native:
         return compile(tree, "<contract>", "eval"), olds
 
     def check_call(self, key, fn, self_obj, args, kwargs=None, ghost_exit=None, check_requires=True):
+        con = self.uni.contracts[key]
+        ghost_exit = ghost_exit or con.get("ghost_exit")
+        ghost_entry = con.get("ghost_entry")
         """run the real function `fn` on concrete inputs under contract `key`.
         returns (outcome, value); raises ContractViolation when a clause fails."""
         kwargs = kwargs or {}
-        con = self.uni.contracts[key]
         cname = key.rpartition(".")[0]
         import inspect
         sig = inspect.signature(fn)
@@ -145,10 +182,13 @@ class Native:
             for oc in olds:
                 v = ev(oc)
                 c = copy.deepcopy(v)
-                if not isinstance(v, (int, str, bool, float, type(None))):
-                    orig_of[id(c)] = v
+                _register(v, c, orig_of)
                 vals.append(c)
             ens.append((name, src, code, vals))
+        ghost_ns = dict(h)
+        ghost_ns.update(env)
+        if ghost_entry:
+            exec(compile(_mangle(ast.parse(ghost_entry), cname), "<ghost>", "exec"), ghost_ns)
         self.evaluations += 1
         try:
             value = fn(self_obj, *args, **kwargs) if self_obj is not None else fn(*args, **kwargs)
@@ -166,9 +206,7 @@ class Native:
             if expected:
                 raise ContractViolation(key, "raises[%s]/if" % exc, "returned normally")
         if ghost_exit:
-            g = dict(h)
-            g.update(env)
-            exec(compile(_mangle(ast.parse(ghost_exit), cname), "<ghost>", "exec"), g)
+            exec(compile(_mangle(ast.parse(ghost_exit), cname), "<ghost>", "exec"), ghost_ns)
         for name, src, code, vals in ens:
             try:
                 ok = ev(code, {"result": value, "__old": vals})
